@@ -10,6 +10,9 @@ pub mod c06;
 pub mod c07;
 pub mod c08;
 pub mod c17;
+pub mod c18;
+pub mod c19;
+pub mod numgen;
 
 /// Run the check of property `id`; None if no such check exists.
 pub fn dispatch(id: &str, opts: &Opts) -> Option<i32> {
@@ -23,6 +26,8 @@ pub fn dispatch(id: &str, opts: &Opts) -> Option<i32> {
         "C07" => run_property(&c07::C07, opts),
         "C08" => run_property(&c08::C08, opts),
         "C17" => run_property(&c17::C17, opts),
+        "C18" => run_property(&c18::C18, opts),
+        "C19" => run_property(&c19::C19, opts),
         _ => return None,
     })
 }
